@@ -7,6 +7,8 @@ package main
 //	script: one caller drives NewPool / member cancellations / Add / Cancel / Size and lets the
 //	        pool settle after every step; observed = (Done() closed?, Size()) after creation and
 //	        after every step, "done after every context was ended", "goroutine still there".
+//	        Operations marked fast are issued back to back with the next one (no settling, no
+//	        look in between): Cancel(); Add(c); Size() in a row.
 //	nested: a script, then Add of a harness-defined context whose Done() method is a callback:
 //	        inside it the harness starts Cancel() or Size() on another goroutine, or ends
 //	        members itself, and waits a bounded time; recorded: was Done() called, did the
